@@ -147,7 +147,7 @@ class Execution:
             crash_at = self.rng.randrange(1, sc.get("crash_max_step", 400))
         seed = self.rng.randrange(1 << 30)
         if sc.get("strategy") == "pct":
-            base = ds.PCTStrategy(seed, depth=sc.get("pct_depth", 3), crash_at=crash_at)
+            base = ds.PCTStrategy(seed, depth=sc.get("pct_depth", 3), p_time=sc.get("p_time", 0.0), crash_at=crash_at)
         else:
             base = ds.RandomStrategy(seed, p_time=sc.get("p_time", 0.0), crash_at=crash_at, stick=sc.get("stick", 0.0))
         if str(inv) in scripts or inv in scripts:
